@@ -34,3 +34,21 @@ Example C04_example :
    IFileHeader (lit "x"%string) []; IHunkHeader [] 1 (lit "@@ -1 +1 @@"%string);
    ILine KMinus (lit "a"%string); ILine KPlus (lit "b"%string)].
 Proof. vm_compute. reflexivity. Qed.
+
+(* The one normalisation of pass-through bytes that looks inside the line (ingest_line_utf8, model
+   Ingest.v, shape pinned by GenIngest.v / C08_cr_cleanup_is_modelled): for every width test, a
+   carriage return that is followed by something with a display width stays, a line without a
+   carriage return is untouched, and never more than one byte — a carriage return — is removed. *)
+From DV Require Import Ingest IngestFacts.
+
+Theorem C04_cr_before_visible_text_kept : forall width0 body tail,
+  ~ In Ingest.CR tail -> width0 tail = false ->
+  drop_cr width0 (body ++ Ingest.CR :: tail) = body ++ Ingest.CR :: tail.
+Proof. exact drop_cr_visible_tail. Qed.
+
+Theorem C04_line_without_cr_untouched : forall width0 l, ~ In Ingest.CR l -> drop_cr width0 l = l.
+Proof. exact drop_cr_without_cr. Qed.
+
+Theorem C04_at_most_one_cr_removed : forall width0 l,
+  drop_cr width0 l = l \/ exists a b, l = a ++ Ingest.CR :: b /\ drop_cr width0 l = a ++ b.
+Proof. exact drop_cr_removes_one_cr. Qed.
